@@ -153,8 +153,9 @@ def _settings(n, steps=None, use_target=False):
               report_multiple_bugs=False, print_blob=False,
               suppress_health_check=[HealthCheck.too_slow, HealthCheck.data_too_large,
                                      HealthCheck.large_base_example, HealthCheck.filter_too_much],
-              phases=([Phase.generate, Phase.target, Phase.shrink] if use_target
-                      else [Phase.generate, Phase.shrink]))
+              phases=[ph for ph in ([Phase.generate, Phase.target, Phase.shrink] if use_target
+                                    else [Phase.generate, Phase.shrink])
+                      if not (ph is Phase.shrink and os.environ.get("VERIF_NOSHRINK"))])
     if steps is not None:
         kw["stateful_step_count"] = steps
     return settings(**kw)
